@@ -32,10 +32,11 @@ logging.disable(logging.CRITICAL)
 
 # Ambient conditions: every check repeats its quick tier in fresh interpreters started like this (see sub_pass / vf/main.py).
 #  A: python -O (assert statements are not executed), local time zone west of Greenwich, the library's DEBUG logging enabled,
-#     a host application that lowered the decimal context precision, a current directory that is not where the process started
+#     a host application that lowered the decimal context precision, the C locale (files opened without an encoding are ASCII)
 #  B: local time zone far east of Greenwich, another string-hash seed (set / dict iteration orders of str keys differ)
 AMBIENTS = [
-    ("ambient-O-west-debuglog", ["-O"], {"TZ": "PST8PDT", "VF_AMBIENT": "debuglog,decimal6"}),
+    ("ambient-O-west-debuglog", ["-O"], {"TZ": "PST8PDT", "VF_AMBIENT": "debuglog,decimal6", "LC_ALL": "C", "LANG": "C", "PYTHONUTF8": "0",
+                                        "PYTHONCOERCECLOCALE": "0", "PYTHONIOENCODING": "utf-8"}),
     ("ambient-east", [], {"TZ": "XXX-14", "VF_AMBIENT": "", "PYTHONHASHSEED": "12345"}),
 ]
 if "debuglog" in os.environ.get("VF_AMBIENT", ""):
